@@ -56,6 +56,15 @@ def cases(ctx, tier):
         out.append(('mpq_set_d %x' % b, 'mpq_set_d'))
     for z in I:
         out.append(('mpz_get_d %s' % hx(z), 'get_d'))
+        if z:
+            # the internal routine with an exponent: results next to overflow (1024), the smallest normal (-1022), the denormals
+            # (-1074) and complete underflow, for every position of the top bit inside its limb; LONG_MAX / LONG_MIN exponents
+            bl = abs(z).bit_length()
+            for tgt in (1025, 1024, 1023, 0, -1021, -1022, -1023, -1060, -1073, -1074, -1075, -1076, -2000):
+                if rng.random() < 0.25:
+                    out.append(('mpn_get_d %s %s %s' % (hx(abs(z)), hx(rng.choice([1, -1, 5, -7])), hx(tgt - bl + rng.choice([0, 0, 1, -1]))), 'mpn_get_d-exp'))
+            if rng.random() < 0.05:
+                out.append(('mpn_get_d %s 1 %s' % (hx(abs(z)), hx(rng.choice([(1 << 63) - 1, -(1 << 63), (1 << 63) - 64 * ((bl + 63) // 64), (1 << 63) - 64 * ((bl + 63) // 64) + 1]))), 'mpn_get_d-longmax'))
         out.append(('mpz_get_d_2exp %s' % hx(z), 'get_d_2exp'))
         out.append(('mpz_get %s' % hx(z), 'get'))
         out.append(('mpz_fits %s' % hx(z), 'fits'))
